@@ -68,7 +68,7 @@ func main() {
 		pool.closeAll()
 		lib.Finish(f, res)
 	}
-	res.SetExtra("variant_probed", map[string]bool{"fix_cache": v.FixCache, "fix_snapshot": v.FixSnap, "fix_persisted": v.FixPersist})
+	res.SetExtra("variant_probed", map[string]bool{"fix_cache": v.FixCache, "fix_snapshot": v.FixSnap, "fix_persisted": v.FixPersist, "init_error_not_remembered": v.InitRetry, "default_initialiser_floor_aware": v.DefaultInitFloorAware})
 
 	var wg sync.WaitGroup
 	sem := make(chan struct{}, workers)
@@ -180,7 +180,7 @@ func checkFloors(res *lib.Result, f lib.Flags) {
 		"revert:re-opens-previous-window": 5, "prune:drops-a-persisted-window": 1,
 		"fault:failed-store-commit": 3, "fault:failed-store-commit-at-window-end": 1, "fault:failed-revert-commit": 3,
 		"fault:failed-lazy-initialisation": 2, "fault:crash-inside-initialiser-0": 1, "fault:crash-inside-initialiser-1": 1,
-		"fault:prune-interrupted": 1, "tamper:del": 1, "tamper:mov": 1,
+		"fault:prune-interrupted": 1, "restart:pruned-database-without-prune-mode": 4, "contents-checked:persisted-window": 20, "contents-checked:snapshot": 20, "tamper:del": 1, "tamper:mov": 1,
 		"history:lru-small-cache": 1, "lru:iterator-query": 60, "history:random-near-second-boundary": 1,
 		"aggregated-filter:edge-column-checked": 9, "bloom:item-round-trip-checked": 200,
 	}
